@@ -67,7 +67,7 @@ func runC13Coop(tb ev.TB, p concProg) ev.Result {
 	for _, th := range p.Threads {
 		for _, op := range th {
 			switch op.Kind {
-			case "append", "joinin", "joinbounded", "joinbad", "setid":
+			case "append", "joinin", "joinbounded", "joinbad", "setid", "iterstream":
 				mut++
 			}
 		}
@@ -91,7 +91,7 @@ func tail(xs []string, n int) []string {
 
 func TestC13Coop(t *testing.T) {
 	c := ev.Get("C13")
-	c.Rule = "generated concurrent programs: a generated setup history builds a shared log and 1-2 source logs; 2-4 logical threads each run 1-3 operations on the shared log from {append, merge-in of a valid source, merge-in of a source with unsigned entries, size-bounded merge, Values, Heads, GetEntries, ToSnapshot, Get/Has, Len, Iterator, ToJSONLog, ToMultihash, SetIdentity, ToString}. Engine E1 (cooperative scheduler, build-tag hooks): the interleaving at every lock request/release and at points inside the critical sections is a generated choice list; deadlock is detected exactly. Engine E2 (TestC13Free, -race): the same programs on free-running goroutines, 3 repetitions each, under the race detector. Oracles: no deadlock, no panic, no data race with a frame in the library; every successful append appears once, appends lie on one chain and respect completion order (E1: logical time); every read result is duplicate-free, causally complete w.r.t. its own set, causally ordered, with heads consistent with its own values; final state == initial ∪ appends ∪ merged sources with heads == unreferenced. Non-trivial = >= 2 mutators and (E1) a preemption taken while the preempted thread held a lock / (E2) >= 2 mutators overlapping in time; distinct = distinct program."
+	c.Rule = "generated concurrent programs: a generated setup history builds a shared log and 1-2 source logs; 2-4 logical threads each run 1-3 operations on the shared log from {append, merge-in of a valid source, merge-in of a source with unsigned entries, size-bounded merge, Values, Heads, GetEntries, ToSnapshot, Get/Has, Len, Iterator (bounded and unbounded; also streamed over an unbuffered channel to a consumer that appends to the log while it is being served), ToJSONLog, ToMultihash, SetIdentity, ToString}. Engine E1 (cooperative scheduler, build-tag hooks): the interleaving at every lock request/release and at points inside the critical sections is a generated choice list; deadlock is detected exactly. Engine E2 (TestC13Free, -race): the same programs on free-running goroutines, 3 repetitions each, under the race detector. Oracles: no deadlock, no panic, no data race with a frame in the library; every successful append appears once, appends lie on one chain and respect completion order (E1: logical time); every read result is duplicate-free, causally complete w.r.t. its own set, causally ordered, with heads consistent with its own values; final state == initial ∪ appends ∪ merged sources with heads == unreferenced. Non-trivial = >= 2 mutators and (E1) a preemption taken while the preempted thread held a lock / (E2) >= 2 mutators overlapping in time; distinct = distinct program."
 	c.Assumptions = []string{"E1 explores interleavings at hook granularity only; lock-removal mutants are E2's job", "E2 is statistical: a data race is found only if the racing accesses happen to run concurrently; its replay re-runs the program several times", "structural clauses that assume causal closure are not asserted for programs containing a size-bounded merge"}
 	ev.Check(t, "C13", func(t *rapid.T) concProg { return genConc(t, true) }, runC13Coop)
 }
